@@ -329,7 +329,10 @@ func (h *vRs) both() string { return h.dump(0) + " | " + h.dump(1) }
 // "both directions of sid have been reset" on the REAL state: the identifier is in neither stream table, no object
 // with that identifier is still open for writing, no end-of-stream marker for it is still queued, and every reset
 // request that names it has been performed by the peer.
-func (h *vRs) quiet(sid uint16) bool {
+func (h *vRs) quiet(sid uint16) bool { return h.notQuietWhy(sid) == "" }
+
+// why the identifier does not count as reset in both directions ("" = it does)
+func (h *vRs) notQuietWhy(sid uint16) string {
 	for x := 0; x < 2; x++ {
 		e := h.e[x]
 		a := e.a
@@ -337,16 +340,16 @@ func (h *vRs) quiet(sid uint16) bool {
 		_, reg := a.streams[sid]
 		a.lock.Unlock()
 		if reg {
-			return false
+			return "registered"
 		}
 		for _, s := range e.objs {
 			if s.streamIdentifier == sid && s.State() == StreamStateOpen {
-				return false
+				return "open_object"
 			}
 		}
 		for _, c := range e.shadow {
 			if c.streamIdentifier == sid && len(c.userData) == 0 {
-				return false
+				return "marker_queued"
 			}
 		}
 		peer := h.e[1-x].a
@@ -358,12 +361,12 @@ func (h *vRs) quiet(sid uint16) bool {
 			}
 			if _, done := peer.performedResetRSNs[r.rsn]; names && !done {
 				peer.lock.Unlock()
-				return false
+				return "request_not_performed"
 			}
 		}
 		peer.lock.Unlock()
 	}
-	return true
+	return ""
 }
 
 func (h *vRs) closeAll() {
@@ -855,6 +858,11 @@ func (g *vRsGen) app(x int, closeOnEOF bool) {
 	}
 	for hd, s := range h.e[x].objs {
 		if g.eof[x][hd] {
+			if closeOnEOF && !g.shut[x][hd] { // saw EOF earlier and left the stream half-open for a while
+				h.do("rs close %d %d", x, hd)
+				g.shut[x][hd] = true
+				g.st("close.after_eof.late")
+			}
 			continue
 		}
 		s.lock.RLock()
@@ -1101,12 +1109,31 @@ func vRsGenerate(h *vRs, r *vrand, nseq int) {
 					if r.chance(50) {
 						g.net(3+r.n(10), 10)
 					}
+					if r.chance(12) {
+						// an application that does not wait: OpenStream on the identifier while its reset is still in progress
+						// (returns the registered object, or creates a second one next to a half-closed one)
+						x2 := r.n(2)
+						n0 := len(h.e[x2].objs)
+						hd := g.open(x2, sid)
+						if len(h.e[x2].objs) > n0 {
+							g.st("reopen.early")
+						} else {
+							g.st("reopen.midway_same_object")
+						}
+						if hd >= 0 && r.chance(60) {
+							g.write(x2, hd, true)
+						}
+					}
 				}
 				g.net(10+r.n(30), 12)
 				g.settle(12, true)
 				allQuiet := true
 				for _, sid := range sids {
-					allQuiet = allQuiet && h.quiet(sid)
+					if why := h.notQuietWhy(sid); why != "" {
+						allQuiet = false
+						g.st("cycle.not_reset." + why)
+						h.l.line(fmt.Sprintf("#note cycle %d ends with stream %d not reset in both directions: %s", c, sid, why), "")
+					}
 				}
 				if allQuiet {
 					g.st("cycle.all_reset")
